@@ -223,3 +223,12 @@ PROPS["C16"] = dict(
     stages=[dict(name="gen", kind="gen", module="Scale.tla", cfg="Scale_gen.cfg",
                  consts=dict(LogExps={"quick": "LogExpsQuick", "thorough": "LogExpsThorough"}, LogBases={"quick": "{2,10}", "thorough": "{2,3,10,16}"}))],
 )
+
+PROPS["C07"] = dict(
+    family="invcdf", specdir="invcdf",
+    technique="TLA+ definition of the quantile (smallest x with F(x) >= y) of piecewise CDFs with jumps, ramps and flat stretches, with its laws checked by TLC; every enumerated CDF is implemented as a Go DistCommon and fed to the generic stats.InvCDF / stats.Rand",
+    level_text="TLC enumerates every piecewise CDF with up to 3 (thorough 4) breakpoints over abscissae {-3,0,1,4,9} and levels in quarters (thorough eighths), with tight, padded and short Bounds, computes the exact smallest x reaching each level k/16 (k/32) and the end-point rule at y = 0 and 1, and checks F(Inv(y)) >= y, minimality and monotonicity; the binder implements each CDF as a user-defined distribution shifted by 0, +-1e6 and 12345.678, compares InvCDF at all levels (incl. exact jump and flat levels and their float neighbours), NaN outside [0,1], dispatch to a distribution's own InvCDF/Rand, bit-identical Rand sequences from equal sources, the Kolmogorov distance of 50,000 draws against the specification's CDF (DKW band, false-alarm 1e-9) on a subset, and built-in discrete distributions through the generic routine",
+    level_note="Trusted: TLC, binder comparison code and its float implementation of the piecewise CDF handed to the library. The bisection algorithm itself is not modelled (API-level binding only).",
+    stages=[dict(name="gen", kind="gen", module="Quantile.tla", cfg="Quantile_gen.cfg",
+                 consts=dict(Levels={"quick": "{0,4,8,12,16}", "thorough": "{0,4,8,12,16,20,24,28,32}"}, Unit={"quick": 16, "thorough": 32}, MaxBP={"quick": 3, "thorough": 4}))],
+)
